@@ -152,8 +152,10 @@ def emit : Handler := fun req => do
   let dupTypes := (typeDefs.filter fun n => (typeDefs.filter (· == n)).length > 1).eraseDups
   -- (2) by-value containment graph acyclic ; (3) default graph acyclic
   let edgesOf (d : Json) (vias : List String) (skipDefaultAttr : Bool) (defaultOnly : Bool) : List GName :=
+    -- `via` is the wrapper chain ("value", "option", "option.box", "vec.box", …); an edge counts when every
+    -- wrapper on the way is allowed
     let pick (es : Json) : List GName := ((arr es).toOption.getD []).filterMap fun e => match e with
-      | .arr #[.str n, .str via] => if vias.contains via && typeDefs.contains n then some n.toList else none
+      | .arr #[.str n, .str via] => if (via.splitOn ".").all vias.contains && typeDefs.contains n then some n.toList else none
       | _ => none
     match (d.getObjValAs? String "kind").toOption with
     | some "struct" => ((arr (fieldD d "fields" (Json.arr #[]))).toOption.getD []).flatMap fun f =>
@@ -208,7 +210,17 @@ def emit : Handler := fun req => do
       verdict false (if classes.contains "" then [] else classes.eraseDups) s!"mentioned but not defined: {undefinedNames}"
     else if !dupTypes.isEmpty then verdict false [] s!"defined more than once: {dupTypes}"
     else if !sizeCyc.isEmpty then verdict false [] s!"by-value containment cycle (infinite size): {sizeCyc.map (fun p => String.ofList p.1)}"
-    else if !defCyc.isEmpty then verdict false [] s!"Default::default() recursion: {defCyc.map (fun p => String.ofList p.1)}"
+    else if !defCyc.isEmpty then
+      -- attribute only when EVERY type on a Default cycle is explained by the spec-level edges of its schema
+      let specEdges : List (String × String × String) := ((arr (fieldD inp "edges" (Json.arr #[]))).toOption.getD []).filterMap fun e => match e with
+        | .arr #[.str a, .str k, .str b] => some (a, k, b) | _ => none
+      let classOf (n : String) : String :=
+        let ks := (specEdges.filter fun e => e.1 == n).map (·.2.1)
+        if ks.contains "oneOf" || ks.contains "anyOf" then "KnownDefaultRecursionUnion"
+        else if ks.contains "req" || ks.contains "allOf" then "KnownDefaultRequiredCycle"
+        else ""
+      let classes := defCyc.map fun p => classOf (String.ofList p.1)
+      verdict false (if classes.contains "" then [] else classes.eraseDups) s!"Default::default() recursion: {defCyc.map (fun p => String.ofList p.1)}"
     else if !orphans.isEmpty then verdict false [] s!"emitted but not used by any selected operation: {orphans}"
     else verdict true []
   let branch := s!"t{typeDefs.length}" ++ (if defs.any (fun d => ((arr (fieldD d "fields" (Json.arr #[]))).toOption.getD []).any fun f => ((arr (fieldD f "edges" (Json.arr #[]))).toOption.getD []).any fun e => match e with | .arr #[_, .str "box"] => true | _ => false) then "+box" else "")
